@@ -78,6 +78,16 @@ def gen_docs(tier, seed, tmpl):
         if rng.random() < 0.2:
             doc["extra"] = {"keys": [1, 2]}
         docs.append((None, json.dumps(doc).encode()))
+    # long sets: element counts past 255 / 1024 (one item per element, in order), bad elements at the byte-width corners
+    for n in ([300, 1100] if tier != "thorough" else [255, 256, 257, 300, 1023, 1025, 4100]):
+        els = [dict(tmpl[0], kid="L%d" % j) for j in range(n)]
+        docs.append((None, json.dumps({"keys": els}).encode()))
+        for j in (0, 254, 255, 256, n - 1):
+            if j < n:
+                els[j] = copy.deepcopy(bads[(j + n) % len(bads)])
+                if isinstance(els[j], dict):
+                    els[j]["kid"] = "Lbad%d" % j
+        docs.append((None, json.dumps({"keys": els}).encode()))
     # elements (and single JWKs inside a set) that themselves carry a member named "keys": still exactly one item each
     for inner in [[], None, "x", 5, {}, [{"kty": "oct", "k": "AAAA", "kid": "inner-1"}], [{"kty": "oct", "k": "AAAA", "kid": "inner-1"}, {"kty": "nope", "kid": "inner-2"}]]:
         for base in (tmpl[0], tmpl[3 % len(tmpl)], {"kty": "nope"}, {}):
